@@ -21,6 +21,7 @@ use tu_verif::refs::{self, Scratch};
 use tu_verif::run::Run;
 
 const ALPHA: [&str; 5] = ["a", "b", "A", "-", " "];
+const CLUSTER_ALPHA: [&str; 3] = ["a", "x\u{301}", " "];
 const QUERY_ALPHA: [&str; 3] = ["a", "b", "A"];
 const QUERY_MAX_LEN: usize = 3;
 const MAX_SIZES: [Option<usize>; 5] = [None, Some(0), Some(1), Some(2), Some(10)];
@@ -509,6 +510,13 @@ fn main() {
     for l in strings(&ALPHA, one_max) {
         sets.push(vec![vec![l]]);
     }
+    // one line with a character of two code points that no normalisation composes (x + U+0301): the
+    // character n-grams are made of grapheme clusters, not of code points
+    for l in strings(&CLUSTER_ALPHA, 3) {
+        if l.contains('\u{301}') {
+            sets.push(vec![vec![l]]);
+        }
+    }
     let two = strings(&ALPHA, two_max);
     for x in &two {
         for y in &two {
@@ -567,7 +575,9 @@ fn main() {
     }
     for s in ALPHA {
         assert!(s == " " || countable(s));
-        assert_eq!(normalize(s, Normalization::NFKC, true), s);
+    }
+    for s in ALPHA.iter().chain(CLUSTER_ALPHA.iter()) {
+        assert_eq!(&normalize(s, Normalization::NFKC, true), s);
     }
     run.bounds.insert("alphabet".into(), json!(ALPHA));
     run.bounds.insert("file_sets".into(), json!(sets.len()));
